@@ -105,9 +105,8 @@ Fixpoint dec_digits_val (s : bytes) (acc : N) : option N :=
    range error outside int64 *)
 Definition go_atoi (s : bytes) : option Z :=
   let '(neg, d) := match s with
-                   | 45 :: r => (true, r)
-                   | 43 :: r => (false, r)
-                   | _ => (false, s)
+                   | c :: r => if c =? 45 then (true, r) else if c =? 43 then (false, r) else (false, s)
+                   | [] => (false, s)
                    end in
   match d with
   | [] => None
@@ -144,18 +143,38 @@ Definition go_window (s : bytes) : option N :=
          end
   end.
 
-(* ---------- correspondence entry points ---------- *)
-Definition mk_opt (kv : string * string) : copt := (unhex (fst kv), unhex (snd kv)).
-Definition mk_sub (s : string * list (string * string)) : csub := (unhex (fst s), map mk_opt (snd s)).
-Definition mk_sec (s : string * list (string * string) * list (string * list (string * string))) : csec :=
-  let '(n, os, subs) := s in (unhex n, map mk_opt os, map mk_sub subs).
-Definition c48_encode (secs : list (string * list (string * string) * list (string * list (string * string)))) : out :=
-  OBytes (encode (map mk_sec secs)).
+(* ---------- correspondence entry points ----------
+   Byte strings arrive as lists of short hex string literals (Coq parses a long
+   string literal in quadratic time).  A case of the encode suite is a list of
+   containers [[tag]; name; key1; value1; key2; value2; ...]: tag "s" opens a
+   section, tag "u" adds a subsection to the section opened last. *)
+Definition unhexs (l : list string) : bytes := flat_map unhex l.
+(* explicit list constructors: nested list notations elaborate very slowly *)
+Definition C1 := @cons string.                    Definition N1 := @nil string.
+Definition C2 := @cons (list string).             Definition N2 := @nil (list string).
+Definition C3 := @cons (list (list string)).      Definition N3 := @nil (list (list string)).
+Fixpoint mk_pairs (l : list (list string)) : list copt :=
+  match l with
+  | k :: v :: r => (unhexs k, unhexs v) :: mk_pairs r
+  | _ => []
+  end.
+Definition add_container (acc : list csec) (c : list (list string)) : list csec :=
+  match c with
+  | [tag] :: name :: kv =>
+    if String.eqb tag "s" then (unhexs name, mk_pairs kv, []) :: acc
+    else match acc with
+         | (n, os, subs) :: acc' => (n, os, subs ++ [(unhexs name, mk_pairs kv)]) :: acc'
+         | [] => acc
+         end
+  | _ => acc
+  end.
+Definition c48_encode (cs : list (list (list string))) : out :=
+  OBytes (encode (rev (fold_left add_container cs []))).
 
 Definition o_optbool (o : optbool) : out :=
   OSym (match o with OBUnset => "unset" | OBFalse => "false" | OBTrue => "true" end)%string.
-Definition c48_interp (kind : string) (v : option string) : out :=
-  let s := go_value (match v with Some h => Some (unhex h) | None => None end) in
+Definition c48_interp (kind : string) (v : option (list string)) : out :=
+  let s := go_value (match v with Some h => Some (unhexs h) | None => None end) in
   if (String.eqb kind "bare" || String.eqb kind "mirror" || String.eqb kind "promisor")%string then OBool (go_eq_true s)
   else if (String.eqb kind "filemode" || String.eqb kind "readrev" || String.eqb kind "writerev")%string then OBool (go_ne_false s)
   else if (String.eqb kind "ntfs" || String.eqb kind "hfs")%string then o_optbool (parse_config_bool s)
